@@ -238,7 +238,7 @@ impl Model {
             Op::Clone { .. } | Op::SaveLoad { .. } | Op::Export => true,
             Op::Slice(v) => self.slice_legal(*v),
             Op::Merge { h, left, right } => {
-                let Some(hm) = Model::build(self.n, self.cap, h) else { return false };
+                let Some(hm) = Model::build(self.n, crate::ops::h_capacity(self.cap, h), h) else { return false };
                 self.plan_merge(&hm, *left, *right).is_some()
             }
             Op::Script { cmds, .. } => {
